@@ -24,7 +24,12 @@ Definition unknownsc (es : list rawc) : list bkey := unknowns (map c_info es).
 Definition netc (es : list rawc) : netlist QcIF :=
   let us := unknownsc es in map (fun e => (c_cl e, mkctxc us e)) es.
 Definition srcsc (es : list rawc) : srcs QcIF :=
-  fun i => match nth_error es i with Some e => (c_par e pIsc, c_par e pVoc) | None => (ci0, ci0) end.
+  fun i => match nth_error es i with
+           | Some e => match c_cl e with
+                       | cK => (c_par e pI01, c_par e pI02)      (* initial currents of the coupled inductors *)
+                       | _ => (c_par e pIsc, c_par e pVoc)
+                       end
+           | None => (ci0, ci0) end.
 Definition keepl (l : list nat) (i : nat) : bool := existsb (Nat.eqb i) l.
 (* the netlist with only the sources at positions l alive *)
 Definition net_masked (es : list rawc) (l : list nat) : netlist QcIF :=
